@@ -192,6 +192,30 @@ func init() {
 		}
 		return sb.String()
 	})
+	// multi-component names build their result piecewise: many look-ups in a
+	// row, and every result is looked at again after later look-ups were
+	// made (a result handed out must not change behind the caller's back)
+	add("names-multi", func() string {
+		multi := []string{"f_i", "f_l", "f_f_l", "A_B_C", "uni0041_B", "a_uni00620063.sc", "f_f", "T_h", "f_f_i.alt"}
+		var sb strings.Builder
+		for round := 0; round < 40; round++ {
+			first := make([][]rune, len(multi))
+			copies := make([]string, len(multi))
+			for i, n := range multi {
+				first[i] = names.ToUnicode(n, round%2 == 1)
+				copies[i] = string(first[i])
+			}
+			for i := range multi {
+				if string(first[i]) != copies[i] {
+					fmt.Fprintf(&sb, "UNSTABLE-RESULT %s: %q became %q;", multi[i], copies[i], string(first[i]))
+				}
+			}
+			if round == 0 {
+				fmt.Fprint(&sb, copies)
+			}
+		}
+		return sb.String()
+	})
 }
 
 func runWorkload() []string {
@@ -330,7 +354,19 @@ func TestGolden(t *testing.T) {
 	fmt.Println("GOLDEN", workloadDigest())
 }
 
+func clipStr(s string) string {
+	if len(s) > 200 {
+		return s[:200] + "..."
+	}
+	return s
+}
+
 func checkHistory(c *historyCase) (msg string, effective int) {
+	for _, r := range runWorkload() {
+		if i := strings.Index(r, "UNSTABLE-RESULT"); i >= 0 {
+			return "a value returned by a name look-up changed when another name was looked up (shared mutable state behind a package-level function): " + clipStr(r[i:]), 0
+		}
+	}
 	before := workloadDigest()
 	pristine := instanceSummary(postscript.NewInterpreter())
 	for _, p := range c.Programs {
@@ -447,9 +483,9 @@ func TestRaceChild(t *testing.T) {
 		}
 		if c.FirstUse {
 			// name look-ups and writers first: first-use initialisation
-			items[g][0] = len(workload) - 1
+			items[g][0] = len(workload) - 1 - g%2 // names-multi / names
 			if len(items[g]) > 1 {
-				items[g][1] = len(workload) - 4 + g%3
+				items[g][1] = len(workload) - 5 + g%3 // WritePDF / afm / queries
 			}
 		}
 	}
@@ -472,6 +508,10 @@ func TestRaceChild(t *testing.T) {
 	}
 	for g := range results {
 		for k, it := range items[g] {
+			if i := strings.Index(results[g][k], "UNSTABLE-RESULT"); i >= 0 {
+				fmt.Printf("RACE-CHILD MISMATCH goroutine %d item %s: %s\n", g, workload[it].name, clipStr(results[g][k][i:]))
+				t.Fatalf("a result handed out earlier changed")
+			}
 			if results[g][k] != seq[it] {
 				fmt.Printf("RACE-CHILD MISMATCH goroutine %d item %s\n", g, workload[it].name)
 				t.Fatalf("concurrent result differs from sequential result")
@@ -511,7 +551,7 @@ func checkRace(c *raceCase) string {
 func TestP2Races(t *testing.T) {
 	rec := ev.New("C18", "races")
 	defer rec.Finish(t)
-	rec.Rule(fmt.Sprintf("concurrency: child processes of the -race build run N = 2..16 goroutines, each executing a drawn sequence of 4-40 workload items (%d kinds: interpreter runs, ReadCMap, type1.Read, Font.Write in 4 formats, WritePDF, Metrics.Write/Read, query methods, name look-ups), released together; half of the children start the goroutines as the very first action of the process, with name look-ups and writers first (first-use initialisation racing with use). Oracle: no race-detector report and every goroutine's results equal the sequential results. Non-trivial: >= 2 goroutines over >= 2 item kinds (always); distinct by seed.", len(workload)))
+	rec.Rule(fmt.Sprintf("concurrency: child processes of the -race build run N = 2..16 goroutines, each executing a drawn sequence of 4-40 workload items (%d kinds: interpreter runs, ReadCMap, type1.Read, Font.Write in 4 formats, WritePDF, Metrics.Write/Read, query methods, name look-ups incl. runs of multi-component names whose results are re-examined after later look-ups), released together; half of the children start the goroutines as the very first action of the process, with name look-ups and writers first (first-use initialisation racing with use). Oracle: no race-detector report and every goroutine's results equal the sequential results. Non-trivial: >= 2 goroutines over >= 2 item kinds (always); distinct by seed.", len(workload)))
 	rec.Assume("the harness does not own the Go scheduler: the happens-before race detector reports unsynchronised conflicting accesses that occur in a run; interleavings are not enumerated")
 	ev.SetupRapid(48, 3040)
 	rapid.Check(t, func(t *rapid.T) {
